@@ -36,10 +36,13 @@ def Spec.wf : Spec → Prop
 /-- a `Range` header carrying one range -/
 def hdrOf (s : Spec) : Str := "bytes=".toList ++ s.str
 
+/-- `s,t1,t2,…` -/
+def setStr : Spec → List Spec → Str
+  | s, [] => s.str
+  | s, t :: rest => s.str ++ ',' :: setStr t rest
+
 /-- a `Range` header carrying a comma-separated set of ranges -/
-def hdrOfSet : List Spec → Str
-  | [] => "bytes=".toList
-  | s :: rest => "bytes=".toList ++ rest.foldl (fun acc t => acc ++ ',' :: t.str) s.str
+def hdrOfSet (s : Spec) (rest : List Spec) : Str := "bytes=".toList ++ setStr s rest
 
 /-- the bytes `file[first..last]` (inclusive) -/
 def slice (file : Bytes) (first last : Nat) : Bytes := (file.drop first).take (last + 1 - first)
